@@ -193,3 +193,248 @@ def expand_path_aliases(stmts):
             continue
         out.append(st)
     return out
+
+
+_MUTABLE_CTORS = ("dict", "list", "set", "defaultdict", "OrderedDict", "deque", "Counter", "zeros", "ones", "eye", "identity", "empty",
+                  "array", "arange", "zeros_like", "WeakKeyDictionary", "WeakValueDictionary")
+
+
+def _is_mutable_container(v: Optional[ast.AST]) -> bool:
+    return isinstance(v, (ast.Dict, ast.List, ast.Set, ast.DictComp, ast.ListComp, ast.SetComp)) or \
+        (isinstance(v, ast.Call) and call_name(v) in _MUTABLE_CTORS)
+
+
+_VALUE_WRAPPERS = ("tuple", "frozenset", "float", "int", "str", "bytes", "round", "sorted", "tobytes", "tolist")
+_MUTATORS = ("append", "add", "update", "setdefault", "pop", "clear", "extend", "insert", "remove", "discard", "popitem", "move_to_end")
+_FILE_READERS = ("open", "open_coordinate_file", "from_files", "from_file", "read_topology", "loadtxt", "genfromtxt", "load", "getmtime",
+                 "getsize", "stat", "listdir", "readlines", "read")
+
+
+def _feeding_params(fn: ast.AST, e: ast.AST, params: Set[str], by_value_only: bool, depth: int = 0) -> Tuple[Set[str], bool]:
+    """(parameters of fn that feed expression e through once-bound locals, whether e also depends on something that is not a
+    parameter value: self state, a file, a call on the outside world).  With by_value_only, a parameter counts only where its
+    VALUE is used (bare, or under tuple()/float()/...), not where only its identity, length, name or an attribute is."""
+    from .pat import single_defs
+    sd = single_defs(fn)
+    out: Set[str] = set()
+    outside = False
+
+    def visit(n, d):
+        nonlocal outside
+        if d > 6:
+            outside = True
+            return
+        if isinstance(n, ast.Name):
+            if n.id in params:
+                out.add(n.id)
+            elif n.id in sd:
+                visit(sd[n.id], d + 1)
+            elif n.id == "self" or n.id == "cls":
+                outside = True
+            return
+        if isinstance(n, ast.Call):
+            nm = call_name(n)
+            if by_value_only and nm in ("id", "len", "hash", "type", "getattr", "hasattr"):
+                return                                    # identity / size / type of the argument, not its value
+            if nm in _FILE_READERS:
+                outside = True
+            if by_value_only and isinstance(n.func, ast.Name) and nm in _VALUE_WRAPPERS:
+                for a in n.args:
+                    visit(a, d)
+                return
+            if by_value_only:
+                return                                    # any other call: not known to preserve the value
+        if isinstance(n, ast.Attribute) and by_value_only:
+            return                                        # x.name, x.shape ... do not determine x
+        if isinstance(n, ast.Attribute) and isinstance(n.value, ast.Name) and n.value.id in ("self", "cls"):
+            outside = True
+        for ch in ast.iter_child_nodes(n):
+            visit(ch, d)
+    visit(e, depth)
+    return out, outside
+
+
+def persistent_state(ctx: Ctx, rule: str, funcs: List[Func], what: str):
+    """`what` is a function of its arguments (and of the files it is told to read) at the time of the call.  The functions
+    given - with the helpers they call - may keep a table between calls only if its key determines the value: every
+    parameter that feeds a stored value is part of the key BY VALUE (not by identity, length, name or path), and the value
+    depends on nothing else (no file contents, no object state).  Looked at: module-level containers, containers bound in
+    a class body (one object for all instances), memoising decorators.  A table that is only written (never consulted by
+    these functions) is not state."""
+    from .effects import Effects
+    E = Effects(ctx.repo)
+    seen: Set[str] = set()
+    todo = []
+    for f0 in funcs:
+        for h in ctx.with_helpers(f0):
+            if h.qual not in seen:
+                seen.add(h.qual)
+                todo.append(h)
+    for h in todo:
+        mod = h.module.node
+        mod_mut = {t.id for st in mod.body if isinstance(st, (ast.Assign, ast.AnnAssign)) and getattr(st, "value", None) is not None
+                   for t in (st.targets if isinstance(st, ast.Assign) else [st.target]) if isinstance(t, ast.Name) and _is_mutable_container(st.value)}
+        cls_mut: Set[str] = set()
+        inst: Set[str] = set()
+        if h.cls is not None:
+            cls_mut = {t.id for st in h.cls.node.body if isinstance(st, (ast.Assign, ast.AnnAssign)) and getattr(st, "value", None) is not None
+                       for t in (st.targets if isinstance(st, ast.Assign) else [st.target]) if isinstance(t, ast.Name) and _is_mutable_container(st.value)}
+            inst = {x.attr for m in h.cls.methods.values() for x in ast.walk(m.node) if isinstance(x, ast.Attribute) and isinstance(x.ctx, ast.Store)
+                    and isinstance(x.value, ast.Name) and x.value.id == "self"}
+        local = {a.arg for a in h.node.args.posonlyargs + h.node.args.args + h.node.args.kwonlyargs} | \
+            {x.id for x in ast.walk(h.node) if isinstance(x, ast.Name) and isinstance(x.ctx, ast.Store)}
+        params = {a.arg for a in h.node.args.posonlyargs + h.node.args.args + h.node.args.kwonlyargs} - {"self", "cls"}
+
+        def persistent(e) -> Optional[str]:
+            if isinstance(e, ast.Name) and e.id in mod_mut and e.id not in local:
+                return e.id
+            if isinstance(e, ast.Attribute) and isinstance(e.value, ast.Name) and h.cls is not None \
+                    and e.value.id in ("self", "cls", h.cls.name) and e.attr in cls_mut and e.attr not in inst:
+                return "%s.%s" % (h.cls.name, e.attr)
+            return None
+        stores, unkeyed, reads = [], [], set()
+        for x in walk_no_nested(h.node):
+            if isinstance(x, (ast.Assign, ast.AugAssign)):
+                for t in (x.targets if isinstance(x, ast.Assign) else [x.target]):
+                    if isinstance(t, ast.Subscript) and persistent(t.value):
+                        stores.append((persistent(t.value), t.slice, x.value, x))
+            if isinstance(x, ast.Call) and isinstance(x.func, ast.Attribute) and x.func.attr in _MUTATORS and persistent(x.func.value):
+                if x.func.attr == "setdefault" and len(x.args) == 2:
+                    stores.append((persistent(x.func.value), x.args[0], x.args[1], x))
+                else:
+                    unkeyed.append((persistent(x.func.value), x))
+        for g in todo:
+            pm_g = parents_map(g.node)
+            for x in walk_no_nested(g.node):
+                par_ = pm_g.get(id(x))
+                if isinstance(par_, ast.Attribute) and par_.attr in _MUTATORS and par_.attr not in ("pop", "setdefault", "popitem") \
+                        and isinstance(pm_g.get(id(par_)), ast.Call) and pm_g[id(par_)].func is par_:
+                    continue                           # receiver of a pure mutation: not a consultation
+                if isinstance(par_, ast.Subscript) and isinstance(par_.ctx, ast.Store) and par_.value is x:
+                    continue
+                if isinstance(x, (ast.Name, ast.Attribute)) and isinstance(x.ctx, ast.Load):
+                    nm = None
+                    if isinstance(x, ast.Name) and x.id in mod_mut and g.module is h.module:
+                        nm = x.id
+                    elif isinstance(x, ast.Attribute) and isinstance(x.value, ast.Name) and h.cls is not None and g.cls is h.cls \
+                            and x.value.id in ("self", "cls", h.cls.name) and x.attr in cls_mut:
+                        nm = "%s.%s" % (h.cls.name, x.attr)
+                    if nm:
+                        reads.add(nm)
+        bad, fine = [], []
+        from .pat import single_defs as _sd_
+        sd_h = _sd_(h.node)
+
+        def names_of(e, by_value):
+            out_, outside_ = set(), False
+
+            def v_(n):
+                nonlocal outside_
+                if isinstance(n, ast.Name):
+                    if n.id in ("self", "cls"):
+                        outside_ = True
+                    elif n.id in params or n.id in sd_h or n.id in local:
+                        out_.add(n.id)
+                    return
+                if isinstance(n, ast.Call):
+                    nm_ = call_name(n)
+                    if nm_ in _FILE_READERS:
+                        outside_ = True
+                    if by_value:
+                        if isinstance(n.func, ast.Name) and nm_ in _VALUE_WRAPPERS:
+                            for a_ in n.args:
+                                v_(a_)
+                        return
+                if isinstance(n, ast.Attribute) and by_value:
+                    return
+                for ch in ast.iter_child_nodes(n):
+                    v_(ch)
+            v_(e)
+            return out_, outside_
+
+        def key_complete(val, key):
+            """(missing inputs, depends on the outside world): names the value is computed from that the key does not hold by
+            value, followed through once-bound locals"""
+            knames, _ = names_of(key, True)
+            # a key held in a once-bound local: its own ingredients count
+            for k_ in list(knames):
+                if k_ in sd_h and k_ not in params:
+                    more, _ = names_of(sd_h[k_], True)
+                    knames |= more
+            work, _o = names_of(val, False)
+            outside_ = _o
+            missing, done = set(), set()
+            work = list(work)
+            while work:
+                n_ = work.pop()
+                if n_ in done or n_ in knames:
+                    continue
+                done.add(n_)
+                if n_ in params:
+                    missing.add(n_)
+                elif n_ in sd_h:
+                    more, o2 = names_of(sd_h[n_], False)
+                    outside_ = outside_ or o2
+                    work.extend(more)
+                else:
+                    missing.add(n_)                   # a local bound more than once: not determined by the key
+            return missing, outside_
+        def with_alias_growth(val, st):
+            """the stored object is also known under a local name and filled in afterwards: what is put into it counts"""
+            aliases = set()
+            if isinstance(val, ast.Name):
+                aliases.add(val.id)
+            if isinstance(st, ast.Assign):
+                aliases |= {t.id for t in st.targets if isinstance(t, ast.Name)}
+            extra = []
+            for x in walk_no_nested(h.node):
+                if isinstance(x, ast.Call) and isinstance(x.func, ast.Attribute) and x.func.attr in _MUTATORS \
+                        and isinstance(x.func.value, ast.Name) and x.func.value.id in aliases:
+                    extra += list(x.args)
+                if isinstance(x, (ast.Assign, ast.AugAssign)):
+                    for t in (x.targets if isinstance(x, ast.Assign) else [x.target]):
+                        if isinstance(t, ast.Subscript) and isinstance(t.value, ast.Name) and t.value.id in aliases:
+                            extra.append(x.value)
+            return ast.Tuple([val] + extra, ast.Load()) if extra else val
+        pm_h = parents_map(h.node)
+
+        def miss_block(st, nm):
+            """the block that fills the table on a miss (`if key not in TABLE:` ...): everything read there feeds the entry"""
+            cur = st
+            while id(cur) in pm_h:
+                cur = pm_h[id(cur)]
+                if isinstance(cur, ast.If) and nm.split(".")[-1] in norm(cur.test):
+                    reads_ = [x for b_ in cur.body + cur.orelse for x in ast.walk(b_) if isinstance(x, (ast.Name, ast.Call, ast.Attribute))
+                              and not (isinstance(x, ast.Name) and isinstance(x.ctx, ast.Store))]
+                    return ast.Tuple([x for x in reads_ if isinstance(x, (ast.Name, ast.Call))], ast.Load())
+            return None
+        for nm, key, val, st in stores:
+            blk_ = miss_block(st, nm)
+            full_val = with_alias_growth(val, st)
+            if blk_ is not None:
+                full_val = ast.Tuple([full_val, blk_], ast.Load())
+            miss_, vout = key_complete(full_val, key)
+            vin, kin = miss_, set()
+            if vout:
+                bad.append("`%s`: the stored value depends on more than the arguments (file contents / object state), which no key can "
+                           "determine" % norm(st)[:70])
+            elif miss_:
+                bad.append("`%s`: the stored value depends on %s, which the key does not hold by value" % (norm(st)[:70], sorted(miss_)))
+            else:
+                fine.append("%s keyed by every input" % nm)
+        for nm, x in unkeyed:
+            if nm in reads and x.func.attr not in ("clear",):
+                bad.append("`%s`: %s accumulates across calls and is consulted" % (norm(x)[:60], nm))
+        wr_other = [e.describe() for e in E.direct(h) if e.root[0] == "global" and e.kind == "ATTR_STORE"]
+        bad += wr_other
+        for d in h.node.decorator_list:
+            t = norm(d)
+            if any(k in t for k in ("lru_cache", "functools.cache", "memoize")) or t == "cache":
+                _, outside = _feeding_params(h.node, ast.Module(body=list(h.node.body), type_ignores=[]), params, False)
+                if outside:
+                    bad.append("@%s on a function whose result depends on more than its arguments (file contents / object state)" % t)
+                else:
+                    fine.append("@%s on a function of its arguments" % t)
+        ctx.ob(rule, h, "tables kept between calls by %s: %s" % (h.name, bad or fine or "none"), not bad,
+               "%s depends only on its arguments and on what it reads during the call: a table kept between calls must be "
+               "keyed by everything its entries are computed from" % what + ("" if not bad else " -- " + bad[0]), node=h.node)
